@@ -321,6 +321,7 @@ def loop_replay(ctx, runs, dist):
     final flushes, and ties every handler call to the read it made.)"""
     lines, index = [], []          # model input; index[k] = (run, worker) of line k, or None for `begin`
     real = {}
+    iters = []                     # (run, worker, `it ...` line for `pdshmodel relay xpoll`, reads that followed, last?)
     st = dist["sched"].setdefault("loop_replay", {"workers": 0, "reads": 0, "short_or_eagain": 0, "skipped_err": 0})
     for ri, (case, meta, res) in enumerate(runs):
         if res["crash"] is not None or res["M"] is None or res["bug"] or res["M"].get("status") != "ok":
@@ -331,12 +332,16 @@ def loop_replay(ctx, runs, dist):
         index.append(None)
         per = {}
         for _, ev in res["steps"]:
-            if len(ev) >= 2 and ev[0] in widx and ev[1] in ("read", "fputs"):
+            if len(ev) >= 2 and ev[0] in widx and ev[1] in ("read", "fputs", "poll"):
                 per.setdefault(ev[0], []).append(ev)
         for th in sorted(per):
             h = widx[th]
             eofs, ok, calls = set(), True, []
+            iters.extend(poll_iterations(ri, th, h, per[th], int(case.get("opts", {}).get("sopt", 1)),
+                                         h in meta.get("abandoned", ())))
             for ev in per[th]:
+                if ev[1] == "poll":
+                    continue
                 if ev[1] == "fputs":
                     b = unhex(ev[3]) if len(ev) > 3 else b""
                     if ev[2] == "2" and b.startswith(b"pdsh@") and h in meta.get("abandoned", ()):
@@ -380,6 +385,7 @@ def loop_replay(ctx, runs, dist):
                                  "loop is left only when both descriptors are closed)" % (
                                      th, meta["targets"][h].decode(), sorted(eofs) or "no stream"),
                                  rc if len(str(rc)) < 1300 else None)
+    judge_iterations(ctx, runs, iters, st)
     if not lines:
         return
     ans = relay.run_model(ctx, ["index", "1"], "".join(l + "\n" for l in lines))
@@ -404,6 +410,75 @@ def loop_replay(ctx, runs, dist):
                                  (calls[k][0], calls[k][1][:40]) if k < len(calls) else None,
                                  (exp[k][0], exp[k][1][:40]) if k < len(exp) else None, len(calls), len(exp)),
                              rc if len(str(rc)) < 1300 else None)
+
+
+def poll_iterations(ri, th, h, evs, sopt, abandoned):
+    """ONE ITERATION of the loop of `_rsh_thread` per poll(2) return of a worker (the real xpoll.c sits between the
+    scheduler's poll and dsh.c): what the kernel-level poll reported for the worker's two descriptors -> the model
+    (`XPoll.loopIter`: xpoll's translation, dsh.c's `revents & (XPOLLREAD|XPOLLERR)` test, -S) says WHICH handlers
+    are called and IN WHICH ORDER; observable = the descriptors of the read(2) calls up to the worker's next poll."""
+    out, cur = [], None
+    fo, fe = VFD_BASE + 2 * h, VFD_BASE + 2 * h + 1
+    for ev in evs:
+        if ev[1] == "poll":
+            if cur is not None:
+                out.append(cur)
+            cur = None
+            if len(ev) >= 4 and ev[2] == "-1":
+                # interrupted: `continue` unless the command timed out (then the loop is left: no further poll)
+                cur = [ri, th, None, [], False, ev[3]]
+                continue
+            rev = {}
+            try:
+                for w in ev[2:]:
+                    if w == "=":
+                        break
+                    fd, r = w.split(":")
+                    rev[int(fd)] = int(r)
+            except ValueError:
+                continue
+            if any(fd not in (fo, fe) for fd in rev):
+                continue
+            nrep = sum(1 for r in rev.values() if r)
+            line = "it %d 0 0 %d %d 0 0 R%d:%d,%d" % (sopt, fo if fo in rev else -1, fe if fe in rev else -1, nrep,
+                                                     rev.get(fo, 0), rev.get(fe, 0))
+            cur = [ri, th, line, [], False, None]
+        elif ev[1] == "read" and cur is not None:
+            fd = int(ev[2])
+            c = "o" if fd == fo else "e" if fd == fe else "?"
+            if not cur[3] or cur[3][-1] != c:      # one handler call = one read(2), or two on the same descriptor when
+                cur[3].append(c)                   # the free space of the ring wraps (cbuf_writer's two segments)
+    if cur is not None:
+        cur[4] = True                  # the worker's last poll: it may have been given up on right after it
+        out.append(cur)
+    return [c + [abandoned] for c in out]
+
+
+def judge_iterations(ctx, runs, iters, st):
+    todo = [c for c in iters if c[2] is not None]
+    st["poll_returns"] = st.get("poll_returns", 0) + len(todo)
+    st["poll_eintr"] = st.get("poll_eintr", 0) + sum(1 for c in iters if c[2] is None)
+    bad = None
+    if todo:
+        ans = relay.run_model(ctx, ["xpoll"], "".join(c[2] + "\n" for c in todo))
+        for c, a in zip(todo, ans):
+            w = a.split()
+            exp = "" if len(w) < 2 or w[1] == "-" else w[1]
+            got = "".join(c[3])
+            st["poll_both_reported"] = st.get("poll_both_reported", 0) + (exp == "oe")
+            if got == exp or (c[4] and c[6] and exp.startswith(got)):
+                continue
+            bad = bad or (c, "after the poll return `%s` the worker read %s, the model (XPoll.loopIter: %s) calls the "
+                             "handlers %s" % (c[2], list(got) or "nothing", a, list(exp) or "of nothing"))
+    for c in iters:
+        if c[2] is None and c[3] and not bad:
+            bad = (c, "after an interrupted poll (-1 %s) the worker read %s before polling again" % (c[5], c[3]))
+    if bad:
+        c, what = bad
+        case, meta, res = runs[c[0]]
+        rc = replay_form(case, meta, res)
+        ctx.disagreement("one iteration of the poll loop of _rsh_thread (xpoll.c + handler dispatch) vs the model",
+                         "worker %s: %s" % (c[1], what), rc if len(str(rc)) < 1300 else None)
 
 
 def replay_form(case, meta, res):
